@@ -432,6 +432,32 @@ def c14_subset(w, ev, slot):
             else:
                 _cmp_subset(w, got, exp_drop, 'subset-table (HDF5, ids=%r)'
                             % (names,))
+            if (a >> 2) & 1 and all(
+                    i and '\t' not in i and '\n' not in i and '\r' not in i
+                    and not i.startswith('#') and i == i.strip()
+                    for i in names):
+                from biom.cli.table_subsetter import subset_table as cmd
+                idsf = store.new_path(w, '.ids.txt')
+                outp = store.new_path(w, '.sub.biom')
+                with open(idsf, 'w', encoding='utf8') as f:
+                    f.write('#a comment line\n')
+                    for i in names:
+                        f.write(i + '\tignored second column\n')
+                w.case('c14.subset', 'subset_table_command', slot, ax=ax)
+                try:
+                    cmd.callback(path, None, AXNAME[ax], idsf, outp)
+                    got = biom.load_table(outp)
+                except Exception as e:  # noqa
+                    w.fail('c14.subset_raised', 'biom subset-table (HDF5) '
+                           'raised %r' % (e,))
+                else:
+                    _cmp_subset(w, got, exp_drop, 'biom subset-table -i '
+                                '(ids file %r)' % (names,))
+                finally:
+                    for pth in (idsf, outp):
+                        if os.path.exists(pth):
+                            os.unlink(pth)
+                w.stats['c14.cli_command'] += 1
             if unknown:
                 w.stats['fault.F2.armed'] += 1
                 bad = list(names) + [w.absent_like(ref.ids[ax], c // 5)]
